@@ -93,15 +93,11 @@ Detail(o, K) ==
     "highest", o.high, "dimension", o.dim>>
 
 (* ---- contract and expectation ---------------------------------------------------- *)
-TwoLines(g) == (g.k = "rows" => g.r2 = g.r1 + 1) /\ (g.k = "cols" => g.c2 = g.c1 + 1)
 InContract(e) ==
   CASE e.a \in {"GetCellMut", "RemoveCell"} -> InGrid(e.r, e.c)
     [] e.a = "SetCell"  -> InGrid(e.r, e.c) /\ e.s \in {"", "N", "F"}
     [] e.a = "SetStyle" -> InGrid(e.r, e.c) /\ e.s \in {"", "N", "F"}
-    (* whole-row / whole-column ranges: two lines, the only form for which set_style_by_range does what its
-       documentation says (one line panics, of three or more only the first two are styled; that concerns
-       the dimension tables, not the cell store) *)
-    [] e.a = "SetStyleByRange" -> CanStyleRange(e.g) /\ TwoLines(e.g) /\ e.s \in {"", "N", "F"}
+    [] e.a = "SetStyleByRange" -> CanStyleRange(e.g) /\ e.s \in {"", "N", "F"}
     [] e.a = "Insert" -> e.ax \in {"row", "col"} /\ CanInsert(st, e.ax, e.p, e.n)
     [] e.a = "Remove" -> e.ax \in {"row", "col"} /\ CanRemove(e.ax, e.p, e.n)
     [] e.a \in {"Move", "Copy"} -> CanMove(e.g, e.dr, e.dc)
